@@ -52,6 +52,12 @@ CLAIMED = {
  'C17': dict(
   text="On the MIR of lua_from_env, for BLOCKWATCH_LUA_MODE unset and for every value of up to N bytes: exactly `safe` selects the safe constructor (io, os, package present; no debug, no native loading), exactly `unsafe` the unsafe one, every other string yields an interpreter whose globals contain none of io, os, package, debug, require, dofile, loadfile and which cannot load native modules.",
   note="The Lua VM and mlua are a contract stub (library flags as sets, base library per the Lua 5.4 manual, native loading per mlua's constructors); the contract is compared with the real VM through a probe script on sampled modes in every run. What the Lua C library does beyond that is outside."),
+ 'C03': dict(
+  text="Rust side only. (a) For every balanced sequence of up to 3-4 comments drawn from templates with 0-2 tag events each, with symbolic comment geometry (line, column, byte offset; ordered, non-overlapping), the MIR of parse_blocks_from_comments / BlockStart::new / source_position_at / into_block returns exactly the innermost-first matching, in source order, each block with the name, '<'/'>' positions, content byte range and content position range of the reference (Z3 terms over the geometry). (b) For every comment text up to N bytes the eleven normaliser closures return text of the same length in which every byte is kept or blanked and line breaks stay in place.",
+  note="The largest exclusion of the suite: tree-sitter (which nodes exist, their kinds and ranges; string literals; 23 grammars; CRLF) and the winnow tag grammar (C05) are stubs. What is claimed is the Rust glue between them."),
+ 'C20': dict(
+  text="For concrete multi-file scenarios executed on the real MIR of detect_validators, validators::run (sync path), the sync validators and process_violations, with the iteration order of every hash map and the validator spawn order chosen by the solver (all permutations of <=3 entries) and one severity attribute symbolic: the instantiated validators, the merged violations (as multisets), and the exit status are identical across all orders; parse_blocks examines the same files and produces the same keys under every walk/map order.",
+  note="A hashing seed can only change iteration order, which is a parameter of the HashMap model. Threads are run in spawn order. Outside: OS scheduling, core count, cwd, the order ignore::Walk really produces, the async validators."),
 }
 
 NOT_APPLICABLE = {
@@ -61,7 +67,7 @@ NOT_APPLICABLE = {
 }
 PENDING = "harness not built yet (planned, DESIGN.md section 4)"
 
-FIX_COMMITS = ["7840229", "fe70c83", "d9a5bb3", "c089a2f", "882bf2f", "408e5a1", "b3177b8", "072e4ba"]
+FIX_COMMITS = ["7840229", "fe70c83", "d9a5bb3", "c089a2f", "882bf2f", "408e5a1", "b3177b8", "072e4ba", "0c70c7a"]
 
 
 def main():
